@@ -63,3 +63,84 @@ Qed.
 Example C17_example : validate_scope (bracketed [of_string "scopeA"; of_string "sub"]) = Ok [SStr (of_string "scopeA"); SStr (of_string "sub")]
   /\ validate_scope (of_string "[scopeA, 12]") = Ok [SStr (of_string "scopeA"); SInt 12].
 Proof. vm_compute. split; reflexivity. Qed.
+
+(* ================================================================================================== *)
+(* added from Properties/C17_add.v (2026-10-01)  *)
+(* ================================================================================================== *)
+(* C17 (addition)  The scope spellings of the command line select the same sub-dict: on the workflow model
+   (DictReader.read with options, DictParser.parse). *)
+From Coq Require Import String.   (* string literals of the examples; imported first so the list names win *)
+From Coq Require Import NArith ZArith List Bool.
+From DictIO Require Import Chars Str Value Scalar KeyPath SDict Reader Cli Parse MiscSpec CliProofs WorkflowProofs.
+Import ListNotations.
+
+Module C17_wf_ex.
+  (* nested dicts, an int key in the inner one *)
+  Definition text := of_string "// top
+a { b { c 1; 7 seven; } x 2; }
+q 3;
+".
+  Definition root := of_string "/r/d.dict".
+  Definition fs : fsys := [(root, FNative text)].
+  Definition ks := [of_string "a"; of_string "b"].
+  Ltac scope_word_tac := split; [discriminate | split; [repeat (constructor; [reflexivity|]); constructor | vm_compute; reflexivity]].
+End C17_wf_ex.
+
+(* --scope TEXT: the command validates TEXT and passes the list on (with_scope_arg).  For scope words ks, the bracketed
+   list, the list of quoted words and (one key) the bare word give the outcome of the API call with the key list -- the
+   same dict, side tables and counter from the reader, the same target name, text and counter from the parser. *)
+Theorem C17_scope_spellings_same_subdict : forall ks, ks <> [] -> Forall scope_word ks ->
+  (forall fs root inc order com c,
+     let by_api := read_opts fs root inc order com (map SStr ks) c in
+     with_scope_arg (bracketed ks) (fun sc => read_opts fs root inc order com sc c) = by_api /\
+     with_scope_arg (quoted_bracketed ks) (fun sc => read_opts fs root inc order com sc c) = by_api /\
+     (forall k, ks = [k] -> with_scope_arg k (fun sc => read_opts fs root inc order com sc c) = by_api)) /\
+  (forall fs src inc app order com out c,
+     let by_api := parse_model fs src inc app order com (map SStr ks) out c in
+     with_scope_arg (bracketed ks) (fun sc => parse_model fs src inc app order com sc out c) = by_api /\
+     with_scope_arg (quoted_bracketed ks) (fun sc => parse_model fs src inc app order com sc out c) = by_api /\
+     (forall k, ks = [k] -> with_scope_arg k (fun sc => parse_model fs src inc app order com sc out c) = by_api)).
+Proof. exact scope_spellings_same_subdict. Qed.
+Print Assumptions C17_scope_spellings_same_subdict.
+
+(* non-vacuity: "[a, b]" and "['a', 'b']" on a source with a { b { c 1; 7 seven; } ..}: the reader returns the content
+   of a.b (int key included), the parser writes it to parsed.d_a_b.dict; the word "a" and "[a]" agree as well *)
+Example C17_scope_spellings_same_subdict_nonvacuous :
+  C17_wf_ex.ks <> [] /\ Forall scope_word C17_wf_ex.ks /\
+  bracketed C17_wf_ex.ks = of_string "[a, b]" /\ quoted_bracketed C17_wf_ex.ks = of_string "['a', 'b']" /\
+  (exists s k,
+     with_scope_arg (of_string "[a, b]") (fun sc => read_opts C17_wf_ex.fs C17_wf_ex.root true false true sc 0) = Some (Ok (s, k)) /\
+     with_scope_arg (of_string "['a', 'b']") (fun sc => read_opts C17_wf_ex.fs C17_wf_ex.root true false true sc 0) = Some (Ok (s, k)) /\
+     sd_data s = [(KS (of_string "c"), Leaf (SInt 1)); (KI 7, Leaf (SStr (of_string "seven")))]) /\
+  (exists txt k,
+     with_scope_arg (of_string "[a, b]") (fun sc => parse_model C17_wf_ex.fs C17_wf_ex.root true false false true sc None 0)
+       = Some (Ok (of_string "/r/parsed.d_a_b.dict", txt, k)) /\
+     with_scope_arg (of_string "['a', 'b']") (fun sc => parse_model C17_wf_ex.fs C17_wf_ex.root true false false true sc None 0)
+       = Some (Ok (of_string "/r/parsed.d_a_b.dict", txt, k))) /\
+  with_scope_arg (of_string "a") (fun sc => read_opts C17_wf_ex.fs C17_wf_ex.root true false true sc 0) =
+  with_scope_arg (of_string "[a]") (fun sc => read_opts C17_wf_ex.fs C17_wf_ex.root true false true sc 0).
+Proof.
+  assert (H1 : C17_wf_ex.ks <> []) by discriminate.
+  assert (H2 : Forall scope_word C17_wf_ex.ks) by (repeat (constructor; [C17_wf_ex.scope_word_tac|]); constructor).
+  assert (B : bracketed C17_wf_ex.ks = of_string "[a, b]") by (vm_compute; reflexivity).
+  assert (Q : quoted_bracketed C17_wf_ex.ks = of_string "['a', 'b']") by (vm_compute; reflexivity).
+  destruct (C17_scope_spellings_same_subdict _ H1 H2) as [R P].
+  refine (conj H1 (conj H2 (conj B (conj Q (conj _ (conj _ _)))))).
+  - destruct (R C17_wf_ex.fs C17_wf_ex.root true false true 0%Z) as (R1 & R2 & _). cbv zeta in R1, R2.
+    rewrite <- B, <- Q, R1, R2.
+    destruct (read_opts C17_wf_ex.fs C17_wf_ex.root true false true (map SStr C17_wf_ex.ks) 0) as [[[s k]|e]|] eqn:E;
+      [|vm_compute in E; discriminate E|vm_compute in E; discriminate E].
+    exists s, k. split; [reflexivity|split; [reflexivity|]]. vm_compute in E. injection E as <- _. reflexivity.
+  - destruct (P C17_wf_ex.fs C17_wf_ex.root true false false true None 0%Z) as (P1 & P2 & _). cbv zeta in P1, P2.
+    rewrite <- B, <- Q, P1, P2.
+    destruct (parse_model C17_wf_ex.fs C17_wf_ex.root true false false true (map SStr C17_wf_ex.ks) None 0) as [[[[t txt] k]|e]|] eqn:E;
+      [|vm_compute in E; discriminate E|vm_compute in E; discriminate E].
+    exists txt, k. assert (Et : t = of_string "/r/parsed.d_a_b.dict") by (vm_compute in E; injection E as <- _ _; reflexivity).
+    rewrite Et. split; reflexivity.
+  - assert (H1' : [of_string "a"] <> []) by discriminate.
+    assert (H2' : Forall scope_word [of_string "a"]) by (repeat (constructor; [C17_wf_ex.scope_word_tac|]); constructor).
+    destruct (C17_scope_spellings_same_subdict _ H1' H2') as [R' _].
+    destruct (R' C17_wf_ex.fs C17_wf_ex.root true false true 0%Z) as (R1 & _ & R3). cbv zeta in R1, R3.
+    assert (B' : bracketed [of_string "a"] = of_string "[a]") by (vm_compute; reflexivity).
+    rewrite <- B', R1. exact (R3 _ eq_refl).
+Qed.
